@@ -170,8 +170,13 @@ static std::string cmdDM(const std::vector<std::string>& a) {
 		Interpreter interp = Interpreter::fromXML(a.at(1), "");
 		JW dummy;
 		setupInterpreter(interp, "", &dummy, false, "");
-		interp.step(0);
-		interp.step(0);
+		auto runToIdle = [&]() {
+			for (int i = 0; i < 100; i++) {
+				InterpreterState st = interp.step(0);
+				if (st == USCXML_IDLE || st == USCXML_FINISHED) break;
+			}
+		};
+		runToIdle();
 		DataModel& dm = interp.getActionLanguage()->dataModel;
 		w.key("r").beginArr();
 		for (size_t i = 2; i < a.size(); i++) {
@@ -200,6 +205,13 @@ static std::string cmdDM(const std::vector<std::string>& a) {
 					attr["type"] = rest.substr(s1 + 1, s2 - s1 - 1);
 					std::string ex = rest.substr(s2 + 1);
 					dm.init(rest.substr(0, s1), ex.size() ? Data(ex, Data::INTERPRETED) : Data(), attr);
+					w.key("ok").boolean(true);
+				} else if (k == 'r') {
+					size_t s1 = rest.find('\x1f');
+					Event ev(rest.substr(0, s1), Event::EXTERNAL);
+					if (s1 != std::string::npos) ev.data = treeFromWire(rest.substr(s1 + 1));
+					interp.receive(ev);
+					runToIdle();
 					w.key("ok").boolean(true);
 				} else if (k == 'x') {
 					dm.eval(rest);
